@@ -20,7 +20,7 @@ PROPS["C19"] = {
     "units": [{
         "pkg": "internal/zzc19", "configs": {"quick": ["default", "force32bit"], "thorough": ALL4},
         "tests": {
-            "TestC19Untrusted": T(40000, 2000000),
+            "TestC19Untrusted": T(120000, 2000000),
             "TestC19LengthSweep": LIST(),
             "FuzzC19Untrusted": FUZZ(180, configs=["default"]),
         },
